@@ -3,6 +3,7 @@
 Inductive step on the node evaluator: Node::eval_with_context[_mut] is executed from MIR with the recursive call on children and
 Operator::eval[_mut] replaced by havoc stubs that log and return arbitrary results.  Because every node of every tree is evaluated by
 this same body, the step lifts to all programs by induction on height -- no depth bound; the fan-out k is bounded."""
+import zlib
 import sys, os, time, random, itertools, re
 import z3
 sys.path.insert(0, os.path.dirname(os.path.dirname(os.path.abspath(__file__))))
@@ -11,6 +12,7 @@ from harness import *
 from engine import NOTFOUND, identical
 
 PID = 'C08'
+CVC5_RATE = [0.01]
 OPERATORS = ['RootNode', 'Add', 'Sub', 'Neg', 'Mul', 'Div', 'Mod', 'Exp', 'Eq', 'Neq', 'Gt', 'Lt', 'Geq', 'Leq', 'And', 'Or', 'Not',
              'Assign', 'AddAssign', 'SubAssign', 'MulAssign', 'DivAssign', 'ModAssign', 'ExpAssign', 'AndAssign', 'OrAssign', 'Tuple', 'Chain',
              'Const', 'VariableIdentifierWrite', 'VariableIdentifierRead', 'FunctionIdentifier']
@@ -182,7 +184,7 @@ def unit(u, res):
     res.bodies |= ex.bodies_used
     res.models |= ex.models_used
     res.paths += len(outs)
-    pr = checklib.Prover(res, timeout_ms)
+    pr = checklib.Prover(res, timeout_ms, CVC5_RATE[0], random.Random(zlib.crc32(repr(u).encode()) ^ checklib.env_seed()))
     name = 'Node::%s on %s with %d %s children' % ('eval_with_context_mut' if mutable else 'eval_with_context', opname, k, child_kind)
     for i, o in enumerate(outs):
         if k:
@@ -314,6 +316,7 @@ def main():
     t0 = time.time()
     tier = checklib.env_tier()
     seed = checklib.env_seed()
+    CVC5_RATE[0] = 0.002 if tier == 'quick' else 0.02
     frontend.load(overflow_checks=True)
     units, maxk, timeout_ms = make_units(tier, seed, PID)
     random.Random(seed).shuffle(units)
